@@ -5,3 +5,38 @@ use super::*;
 pub fn verif_frame_len(length: u64, max_frame_size: u64) -> Option<usize> {
     checked_frame_length(length, max_frame_size).ok()
 }
+
+/// A reader that hands out `total` bytes (value = position mod 251) in pieces of the given sizes (a piece larger than the caller's buffer is cut to
+/// the buffer), then reports EOF.
+struct VerifChunkReader {
+    pos: usize,
+    total: usize,
+    chunks: std::collections::VecDeque<usize>,
+}
+impl tokio::io::AsyncRead for VerifChunkReader {
+    fn poll_read(mut self: std::pin::Pin<&mut Self>, _cx: &mut std::task::Context<'_>, buf: &mut tokio::io::ReadBuf<'_>) -> std::task::Poll<std::io::Result<()>> {
+        let left = self.total - self.pos;
+        let want = self.chunks.pop_front().unwrap_or(left);
+        let n = want.min(left).min(buf.remaining());
+        if n < want.min(left) {
+            // the caller asked for less than this piece: the rest of the piece stays for the next read
+            let rest = want.min(left) - n;
+            self.chunks.push_front(rest);
+        }
+        let data: Vec<u8> = (self.pos..self.pos + n).map(|i| (i % 251) as u8).collect();
+        buf.put_slice(&data);
+        self.pos += n;
+        std::task::Poll::Ready(Ok(()))
+    }
+}
+
+/// `read_n_bytes(len)` over a stream of `total` bytes delivered in the given piece sizes. Ok(n, intact) = n bytes returned and they are the first n
+/// bytes of the stream in order; Err(kind).
+pub async fn verif_read_n(len: usize, total: usize, chunks: &[usize]) -> Result<(usize, bool), String> {
+    let reader = VerifChunkReader { pos: 0, total, chunks: chunks.iter().copied().collect() };
+    let mut half = ActorReadHalf::External(Box::new(reader));
+    match read_n_bytes(&mut half, len).await {
+        Ok(v) => Ok((v.len(), v.iter().enumerate().all(|(i, b)| *b == (i % 251) as u8))),
+        Err(e) => Err(format!("{:?}", e.kind())),
+    }
+}
